@@ -52,6 +52,26 @@ func NewFix(persister mysql_db.MySQLDbPersistence) *Fix {
 	return f
 }
 
+// NewFixNoAccounts builds the same schema on an engine whose mysql database is still empty and disabled (every
+// statement is allowed); accounts are then loaded into it with MySQLDb.LoadData.
+func NewFixNoAccounts(persister mysql_db.MySQLDbPersistence) *Fix {
+	e := core.NewEng("d")
+	mdb := e.E.Analyzer.Catalog.MySQLDb
+	if persister == nil {
+		persister = &mysql_db.NoopPersister{}
+	}
+	mdb.SetPersister(persister)
+	f := &Fix{E: e, Mdb: mdb, sess: map[string]*core.Sess{}}
+	f.Root = e.NewSessAs("root", "localhost")
+	for _, q := range SetupSQL {
+		if strings.HasPrefix(q, "CREATE USER") {
+			continue
+		}
+		f.Root.MustExec(q)
+	}
+	return f
+}
+
 func (f *Fix) Close() { f.E.Close() }
 
 // Sess returns the cached session of a client identity (current database d).
@@ -224,10 +244,25 @@ func ShowGrantsOn(s *core.Sess, name, host string) ([]string, error) {
 	}
 	var out []string
 	for _, row := range r.Rows {
-		out = append(out, fmt.Sprint(row[0]))
+		out = append(out, NormalizeRoleLine(fmt.Sprint(row[0])))
 	}
 	sort.Strings(out)
 	return out, nil
+}
+
+// NormalizeRoleLine sorts the role names of a "GRANT `r1`@`%`, `r2`@`%` TO …" line: the engine lists them in the
+// order the edges were stored, which is insertion order before and key order after a reload (an unordered list).
+func NormalizeRoleLine(l string) string {
+	if !strings.HasPrefix(l, "GRANT `") || strings.Contains(l, " ON ") {
+		return l
+	}
+	to := strings.LastIndex(l, " TO ")
+	if to < 0 {
+		return l
+	}
+	roles := strings.Split(l[6:to], ", ")
+	sort.Strings(roles)
+	return "GRANT " + strings.Join(roles, ", ") + l[to:]
 }
 
 // ParsedGrants is SHOW GRANTS read back: privileges per level key, and granted roles.
